@@ -43,9 +43,12 @@ type oblOut struct {
 func lockName(fk string, o *Obl) string {
 	n := o.Name
 	switch o.Kind {
-	case "post", "lemma", "inv-entry", "dec":
-	case "inv-step":
+	case "lemma", "inv-entry", "dec":
+	case "post", "inv-step":
 		if i := strings.Index(n, "/e"); i >= 0 {
+			n = n[:i]
+		}
+		if i := strings.Index(n, "/r"); i >= 0 {
 			n = n[:i]
 		}
 	case "site", "crash":
